@@ -1,4 +1,5 @@
 import ReplicatProofs.Lemmas.RepoSafety
+import ReplicatProofs.Lemmas.RepoCrash
 /-!
 # C02 — no history of snapshot / delete / clean ever damages a remaining snapshot
 
@@ -171,14 +172,18 @@ theorem no_overwrite (enc : Bool) (s s' : Store) (op : Op) (stage : List Mut) (f
       subst hstage
       simp at hm
 
-/-- **Interrupted or in-flight snapshot.**  After every prefix of every completion order the code allows for a snapshot command
-(chunk uploads in any order, the snapshot object only after all of them) the repository is consistent. -/
-theorem consistent_prefix (enc : Bool) (s : Store) (u : User) (stream : List Content) (files : List FileRec) (ts sid : Nat)
-    (tr : List Mut) (h : Consistent enc s) (hop : OpOk enc (.snapshot u stream files ts sid))
-    (hacc : acceptsPrefix (planOf enc s (.snapshot u stream files ts sid)) tr = true) :
-    Consistent enc (applyMuts s tr) := by
-  obtain ⟨h1, h2⟩ := snapshotPlan_supported h.1 hop hacc
-  exact supported_consistent tr s h h2 h1
+/-- **Interrupted or in-flight command.**  After every prefix of every completion order the code allows for a command —
+snapshot: chunk uploads in any order, the snapshot object only after all of them; delete: snapshot objects in any order, chunk
+deletions only after all of them; clean: deletions in any order — the repository is consistent: a command that is cut short
+at any point (and run alone, if destructive) damages no remaining snapshot. -/
+theorem consistent_prefix (enc : Bool) (s : Store) (op : Op) (tr : List Mut) (h : Consistent enc s) (hop : OpOk enc op)
+    (hacc : acceptsPrefix (planOf enc s op) tr = true) : Consistent enc (applyMuts s tr) := by
+  cases op with
+  | snapshot u stream files ts sid =>
+    obtain ⟨h1, h2⟩ := snapshotPlan_supported h.1 hop hacc
+    exact supported_consistent tr s h h2 h1
+  | delete u sids => exact delete_prefix_consistent h hop hacc
+  | clean u => exact clean_prefix_consistent h hop hacc
 
 /-- **Overlapping non-destructive commands** (README: snapshots may run concurrently, from one or several processes).  Two
 snapshot commands by any two users start in the same consistent state; their backend mutations interleave arbitrarily, each
